@@ -1,2 +1,105 @@
-/-! Stub driver: the model driver for this property is not built yet. -/
-def main : IO Unit := IO.println "unimplemented"
+import JoblibModel.NJobs
+import JoblibModel.IOUtil
+/-! Driver for C15 (stateless). `-` = None / absent. Backend class letters: S T M L.
+
+  cpu <os> <wincap> <affinity> <quota> <period> <loky> <only_physical 0|1> <physical>
+        os/wincap/affinity/physical: `-` or a natural number; quota/period: both `-` or both integers;
+        loky: `-` (unset) | `bad` (not an integer literal) | an integer
+        → ok <n> | raises ValueError
+  eff <C> <level|N> <mpNone> <daemon> <main> <lokyDepth> <cpus> <lo> <hi>
+        → eff <r(lo)> … <r(hi)> <r(None)>          r = a number | E (ValueError)
+  init <same arguments>
+        → init <C:n_jobs:pool> …                    pool `-` = none;  or E
+  nested <C> <level> <activeC> <activeLevel>  → <C> <level>
+  chain <C> <level> <depth>                   → <C:level> for depth 0 … depth
+  wenv <C> <mpNone> <daemon> <main> <lokyDepth> → <daemon> <main> <lokyDepth> of the workers
+Anything else → bad-op. -/
+open JoblibModel JoblibModel.NJobs JoblibModel.IOUtil
+open JoblibModel.Config (BackendClass)
+
+def clsOf (s : String) : Option BackendClass :=
+  match s.toList with
+  | ['S'] => some .sequential | ['T'] => some .threading
+  | ['M'] => some .multiprocessing | ['L'] => some .loky
+  | _ => none
+
+def clsLetter : BackendClass → String
+  | .sequential => "S" | .threading => "T" | .multiprocessing => "M" | .loky => "L"
+
+def optNat? (s : String) : Option (Option Nat) :=
+  if s = "-" then some none else s.toNat?.map some
+
+def bool? (s : String) : Option Bool :=
+  if s = "1" then some true else if s = "0" then some false else none
+
+def level? (s : String) : Option (Option Nat) :=
+  if s = "N" then some none else s.toNat?.map some
+
+def showB (b : Bool) : String := if b then "1" else "0"
+
+def intRange (lo hi : Int) : List Int :=
+  (List.range ((hi - lo + 1).toNat)).map (fun (i : Nat) => lo + Int.ofNat i)
+
+def parseEff : List String → Option (BackendClass × Option Nat × EffEnv × Int × Int)
+  | [c, l, mn, dm, mt, ld, cpus, lo, hi] => do
+    let c ← clsOf c; let l ← level? l; let mn ← bool? mn; let dm ← bool? dm; let mt ← bool? mt
+    let ld ← ld.toNat?; let cpus ← cpus.toInt?; let lo ← lo.toInt?; let hi ← hi.toInt?
+    pure (c, l, ⟨mn, dm, mt, ld, cpus⟩, lo, hi)
+  | _ => none
+
+def handle (line : String) : String :=
+  match tokens line with
+  | ["cpu", os, wc, aff, q, p, lk, op, ph] =>
+    let cg : Option (Option (Int × Int)) :=
+      if q = "-" && p = "-" then some none
+      else match q.toInt?, p.toInt? with
+        | some q, some p => some (some (q, p))
+        | _, _ => none
+    let lk : Option (Option (Option Int)) :=
+      if lk = "-" then some none else if lk = "bad" then some (some none)
+      else lk.toInt?.map (fun v => some (some v))
+    match optNat? os, optNat? wc, optNat? aff, cg, lk, bool? op, optNat? ph with
+    | some os, some wc, some aff, some cg, some lk, some op, some ph =>
+      match cpuCount ⟨os, wc, aff, cg, lk, ph⟩ op with
+      | .ok n => "ok " ++ toString n
+      | .error _ => "raises ValueError"
+    | _, _, _, _, _, _, _ => "bad-op"
+  | "eff" :: rest =>
+    match parseEff rest with
+    | some (c, l, env, lo, hi) =>
+      let one (n : Option Int) : String := match effectiveNJobs c l env n with
+        | .ok k => toString k
+        | .error _ => "E"
+      joinSp ("eff" :: ((intRange lo hi).map (fun n => one (some n)) ++ [one none]))
+    | none => "bad-op"
+  | "init" :: rest =>
+    match parseEff rest with
+    | some (c, l, env, lo, hi) =>
+      let one (n : Option Int) : String := match initializeBackend c l env n with
+        | .ok r => clsLetter r.cls ++ ":" ++ toString r.n_jobs ++ ":" ++
+            (match r.pool with | none => "-" | some k => toString k)
+        | .error _ => "E"
+      joinSp ("init" :: ((intRange lo hi).map (fun n => one (some n)) ++ [one none]))
+    | none => "bad-op"
+  | ["nested", c, l, ac, al] =>
+    match clsOf c, l.toNat?, clsOf ac, al.toNat? with
+    | some c, some l, some ac, some al =>
+      let r := getNestedBackend c l (ac, al)
+      clsLetter r.1 ++ " " ++ toString r.2
+    | _, _, _, _ => "bad-op"
+  | ["chain", c, l, d] =>
+    match clsOf c, l.toNat?, d.toNat? with
+    | some c, some l, some d =>
+      joinSp ((List.range (d + 1)).map (fun i =>
+        let b := defaultAt (c, l) i
+        clsLetter b.1 ++ ":" ++ toString b.2))
+    | _, _, _ => "bad-op"
+  | ["wenv", c, mn, dm, mt, ld] =>
+    match clsOf c, bool? mn, bool? dm, bool? mt, ld.toNat? with
+    | some c, some mn, some dm, some mt, some ld =>
+      let w := workerEnv c ⟨mn, dm, mt, ld, 1⟩
+      joinSp [showB w.daemon, showB w.mainThread, toString w.lokyDepth]
+    | _, _, _, _, _ => "bad-op"
+  | _ => "bad-op"
+
+def main : IO Unit := lineLoop handle
